@@ -74,7 +74,7 @@ fn load_world(repo: &Path, work: &Path) -> World {
     add_dir(repo.join("examples/github/examples"), "github".into(), false);
     // synthetic fixtures for features the repository's fixtures only have in an arguable form:
     // deprecations with explicit reasons (fields and enum values), custom scalars, lists of lists
-    let syn: [(&str, &str, &str); 3] = [
+    let syn: [(&str, &str, &str); 4] = [
         (
             // type extensions, custom root names incl. subscription, several interfaces per object,
             // descriptions (single-line and block), a deprecated field added by an extension
@@ -86,6 +86,14 @@ fn load_world(repo: &Path, work: &Path) -> World {
             "syn_deprecated__q",
             "schema { query: Query }\ntype Query { currentUser: User, role: Role }\ntype User { id: ID!, name: String, oldName: String @deprecated(reason: \"Use name\"), legacy: Int @deprecated(reason: \"gone \\\"for good\\\"\"), vintage: Int @deprecated }\nenum Role { ADMIN OLD @deprecated(reason: \"x\") USER }\n",
             "query Dep { currentUser { id name oldName legacy vintage } role }\n",
+        ),
+        (
+            // documentation and directives: block-string descriptions, a directive definition,
+            // an interface implementing an interface, @specifiedBy, enum-valued and list-valued
+            // defaults, described enum values and arguments
+            "syn_docs__q",
+            "schema { query: Query }\n\"\"\"\nBlock description with \"quotes\" and unicode café\n  indented line\n\"\"\"\ndirective @auth(role: String = \"user\") repeatable on FIELD_DEFINITION | OBJECT\n\"An entity\"\ninterface Entity { id: ID! }\ninterface Node implements Entity { id: ID!, label: String }\n\"A scalar with a URL\"\nscalar Stamp @specifiedBy(url: \"https://example.com/stamp\")\nenum Level {\n  \"lowest\"\n  LOW\n  \"\"\"\n  highest\n  level\n  \"\"\"\n  HIGH\n}\ninput Opts { level: Level = HIGH, levels: [Level!] = [LOW, HIGH], nested: Opts, when: Stamp }\ntype Item implements Node & Entity @auth(role: \"admin\") {\n  id: ID!\n  label: String\n  \"when it was made\"\n  made(tz: String = \"UTC\", opts: Opts = {level: LOW}): Stamp @auth\n  level: Level\n}\ntype Query { node(id: ID!): Node, item: Item, entities: [Entity!]! }\n",
+            "query Docs($o: Opts) { node(id: \"1\") { __typename id label ... on Item { made(opts: $o) level } } item { id made } entities { __typename id } }\n",
         ),
         (
             "syn_shapes__q",
